@@ -4,6 +4,7 @@
 mod c07;
 mod c16;
 mod c17;
+mod c18;
 mod c20;
 mod mp4gen;
 mod mp4props;
@@ -121,6 +122,7 @@ fn main() {
             "C07" | "C08" => c07::replay(&prop, &line, &mut out),
             "C16" => c16::replay(&line, &mut out),
             "C17" => c17::replay(&line, &mut out),
+            "C18" => c18::replay(&line, &mut out),
             "C20" => c20::replay(&line, &mut out),
             "C01" | "C02" | "C03" | "C04" | "C05" => mp4props::replay(&prop, &line, &mut out),
             _ => {
@@ -137,6 +139,7 @@ fn main() {
         "C07" | "C08" => c07::run(&prop, &opts, &mut out),
         "C16" => c16::run(&opts, &mut out),
         "C17" => c17::run(&opts, &mut out),
+        "C18" => c18::run(&opts, &mut out),
         "C20" => c20::run(&opts, &mut out),
         "C01" | "C02" | "C03" | "C04" | "C05" => mp4props::run(&prop, &opts, &mut out),
         _ => {
